@@ -384,7 +384,7 @@ def kid_rope(c, f):
     )
 
 
-@REG.contract("dpapi_ng._blob.KeyIdentifier.pack", props=["C11", "C06"])
+@REG.contract("dpapi_ng._blob.KeyIdentifier.pack", props=["C11", "C06"], inline=True)
 def kid_pack(c):
     if c.verifying:
         f = kid_fresh(c)
@@ -408,7 +408,7 @@ def kid_of_opaque(c, data):
     return SObj(c.I.P.find_class("KeyIdentifier"), {**f, "magic": SBytes(R.Rope.lit(b"KDSK"))})
 
 
-@REG.contract("dpapi_ng._blob.KeyIdentifier.unpack", props=["C11", "C06"])
+@REG.contract("dpapi_ng._blob.KeyIdentifier.unpack", props=["C11", "C06"], inline=True)
 def kid_unpack(c):
     class_param(c, "KeyIdentifier")
     if c.verifying:
